@@ -298,6 +298,41 @@ def reopenSeq (rt : Manifest → Option Manifest) (w : World) (s : Sess) (ops : 
     let (s', r) := reopenStep rt w acc.1 op
     (s', acc.2 ++ [r])) (s, [])
 
+/-! ### builds that keep their handle: extension histories
+
+`RevIndex::create` and `update` return the open (read-write) index; a later `update` on it installs the
+NEW collection — its manifest and its storage — in the handle and `save_collection` stores its manifest
+and its storage spec.  The new collection may name its blobs differently (`Collection::from_sigs`
+numbers them by input position, so a signature that a selection drops shifts every later location):
+`check_superset` compares the manifest ROWS without their `internal_location` column
+(`impl PartialEq for Record`), and the model keeps only that column — so its verdict is an INPUT here
+(`sup`; `updateLog` is the special case in which a row is identified with its location). -/
+
+/-- `RevIndex::create(dir, c)` run to completion on the directory of session `s` (no handle open): the
+writes in single-threaded order; the handle it returns reads the signatures from the collection's own
+storage and has every dataset in its in-memory processed set -/
+def createSess (s : Sess) (c : Coll) (sp : Spec) : Sess :=
+  let d := run s.disk (createLog s.disk c sp)
+  { s with disk := d,
+           handle := some { manifest := c.manifest, storage := sp, processed := List.range c.length, readOnly := false } }
+
+/-- `handle.update(c)` run to completion (`update(mut self, …)` consumes the handle: every failure
+closes it).  No handle: nothing happens (`closed`).  A read-only handle: the first `merge_cf` /
+`put_cf` errs and is `expect`ed (`panic`).  `sup = false`: `check_superset` returns the error before
+anything is written (`err`).  Otherwise the datasets that are not in the handle's processed set are
+written, then the new manifest and the new storage spec; the handle now holds the new collection. -/
+def extendSess (sup : Bool) (s : Sess) (c : Coll) (sp : Spec) : Sess × RRes :=
+  match s.handle with
+  | none => (s, .closed)
+  | some h =>
+    if h.readOnly then ({ s with handle := none }, .panic)
+    else if !sup then ({ s with handle := none }, .err)
+    else
+      let d := run s.disk (seqLog c h.processed ++ metaLog c sp)
+      ({ s with disk := d,
+                handle := some { manifest := c.manifest, storage := sp, processed := List.range c.length,
+                                 readOnly := false } }, .ok)
+
 /-! ### answers -/
 
 /-- how many hashes of the query `HASHES` attributes to dataset `d` -/
